@@ -460,6 +460,8 @@ func c11(c *Ctx) (*report.Result, error) {
 	}
 	res.RuleDoc["O11.6"] = "endpoint addresses are never reused while the manager lives (same analysis as O10.7): the session id is the table key, the gRPC endpoint address and the key its cleanup deletes - an id that repeats makes a replacement overwrite a live session, and that session's later cleanup removes the replacement"
 	checkSessionIDs(c, res, "O11.6")
+	res.RuleDoc["O11.8"] = "locks are paired (same analysis as O8.13): every Lock / RLock of the transport packages is released on every way out of its function and every Unlock is preceded by its Lock - a leaked session-table or connection-map lock parks every later session change and dial"
+	checkLockPairing(c, res, "O11.8", []string{"transport/grpcutil", "transport/mux"}, 8)
 	res.RuleDoc["O11.7"] = "no swallowed error in the files the mechanism lives in: no function returns a nil error on a path on which an error obtained from a call is known to be non-nil (io.EOF from a stream Recv, the normal end of a receive loop, is the one accepted idiom)"
 	checkNoSwallowedErrors(c, res, "O11.7", []string{"transport/grpcutil/multi_client_conn.go", "transport/mux/multi_mux_manager.go"})
 	return res, nil
